@@ -583,6 +583,9 @@ class CachingQPSol:
                 # Identify the linear term in the objective
                 c = ca.substitute(gf, x, ca.DM.zeros(x.sparsity()))
 
+                # Identify the constant term in the objective
+                f0 = ca.substitute(f, x, ca.DM.zeros(x.sparsity()))
+
                 # Identify the quadratic term in the objective
                 H = ca.jacobian(gf, x, {"symmetric": True})
 
@@ -637,6 +640,7 @@ class CachingQPSol:
                 self._solver_in["g"] = ca.DM(c)
                 self._solver_in["a"] = ca.DM(A)
                 self._b = ca.DM(b)
+                self._f0 = ca.DM(f0)
 
             def __call__(self, x0, lbx, ubx, lbg, ubg):
                 self._solver_in["x0"] = x0
@@ -647,7 +651,8 @@ class CachingQPSol:
 
                 solver_out = self._solver(**self._solver_in)
 
-                solver_out["f"] = solver_out["cost"]
+                # The conic solver does not know about the constant term of the objective
+                solver_out["f"] = solver_out["cost"] + self._f0
 
                 return solver_out
 
